@@ -1,0 +1,103 @@
+//go:build verif
+
+// Package verifhook marks the places where gleece iterates a Go map (or another unordered source) in a way that
+// can reach its output. With the `verif` build tag the order of such a slice is owned by a verification harness:
+// it is first brought into a canonical order (sorted by key) and then permuted as the harness chooses, so the
+// harness can enumerate every order Go's map iteration could have produced.
+package verifhook
+
+import (
+	"fmt"
+	"os"
+	"sort"
+	"strconv"
+	"strings"
+	"sync"
+)
+
+var (
+	mu sync.Mutex
+	// chooser returns the index (0 <= index < n!) of the permutation to apply at this call; 0 is the canonical order.
+	chooser    func(site string, n int) int
+	callIndex  int
+	envChoices = map[int]int{}
+	tracePath  string
+)
+
+func init() {
+	// VERIF_ORDER_CHOICES=<call index>:<permutation index>,... drives a fresh process; every consumed choice point
+	// is appended to the file named by VERIF_ORDER_TRACE as "<call index> <site> <n> <permutation index>".
+	for _, part := range strings.Split(os.Getenv("VERIF_ORDER_CHOICES"), ",") {
+		kv := strings.SplitN(part, ":", 2)
+		if len(kv) != 2 {
+			continue
+		}
+		idx, err1 := strconv.Atoi(kv[0])
+		perm, err2 := strconv.Atoi(kv[1])
+		if err1 == nil && err2 == nil {
+			envChoices[idx] = perm
+		}
+	}
+	tracePath = os.Getenv("VERIF_ORDER_TRACE")
+}
+
+// SetChooser installs an in-process chooser (nil restores the canonical order) and resets the call counter.
+func SetChooser(c func(site string, n int) int) {
+	mu.Lock()
+	defer mu.Unlock()
+	chooser = c
+	callIndex = 0
+}
+
+// Permute sorts s by key and applies the permutation chosen for this call. Slices with fewer than two
+// elements offer no choice and are not counted as choice points.
+func Permute[T any](site string, s []T, key func(T) string) []T {
+	if len(s) < 2 {
+		return s
+	}
+	mu.Lock()
+	defer mu.Unlock()
+
+	sorted := append([]T(nil), s...)
+	sort.SliceStable(sorted, func(i, j int) bool { return key(sorted[i]) < key(sorted[j]) })
+
+	idx := callIndex
+	callIndex++
+	perm := 0
+	if chooser != nil {
+		perm = chooser(site, len(sorted))
+	} else if v, ok := envChoices[idx]; ok {
+		perm = v
+	}
+	if tracePath != "" {
+		if f, err := os.OpenFile(tracePath, os.O_APPEND|os.O_CREATE|os.O_WRONLY, 0o644); err == nil {
+			fmt.Fprintf(f, "%d %s %d %d\n", idx, site, len(sorted), perm)
+			f.Close()
+		}
+	}
+	return nthPermutation(sorted, perm)
+}
+
+// nthPermutation returns the index-th permutation of s in lexicographic order of positions (factorial number system).
+func nthPermutation[T any](s []T, index int) []T {
+	if index <= 0 {
+		return s
+	}
+	pool := append([]T(nil), s...)
+	out := make([]T, 0, len(s))
+	fact := 1
+	for i := 2; i < len(pool); i++ {
+		fact *= i
+	}
+	for n := len(pool); n > 0; n-- {
+		pos := 0
+		if n > 1 {
+			pos = (index / fact) % n
+			index %= fact
+			fact /= max(n-1, 1)
+		}
+		out = append(out, pool[pos])
+		pool = append(pool[:pos], pool[pos+1:]...)
+	}
+	return out
+}
